@@ -187,6 +187,37 @@ def run(ctx):
                 viol.append(Violation("C09", p, "all scripts succeed but a command exited %s%s (a.do runs `redo -j2 inner` after `redo-ifchange x` waited for another command's lock)" % (bad[0].rc, ": " + m.group(0) if m else "")))
         finally:
             pr.destroy()
+    # 4d. a process waits several seconds for a token (it gave its own up while waiting for a lock; meanwhile both
+    #     tokens are held by long jobs; no log viewer, so no borrowing): the back-off of the wait loop stays bounded
+    #     (uncapped it overflowed and the process aborted after about 65 s — repaired in /repo, see known_findings.json)
+    if not viol:
+        pr = Project()
+        try:
+            hold = 70 if thorough else 3
+            pr.write("all.do", "redo-ifchange a b long\n")
+            pr.write("a.do", "sleep 0.3\nredo-ifchange c\necho a\n")
+            pr.write("b.do", "redo-ifchange c\nsleep %d\necho b\n" % hold)
+            pr.write("c.do", "sleep 1\necho c\n")
+            pr.write("long.do", "sleep %d\necho long\n" % hold)
+            rs = sched.run_cmds(pr, [["redo", "-j2", "--no-log", "all"]], timeout=hold + 40)
+            stats["scenarios"] += 1
+            stats["runs"] += 1
+            backs = [int(e[3][0]) for e in rs[0].trace if e[2] == "js.backoff" and e[3] and e[3][0].isdigit()]
+            stats["backoff_events"] = len(backs)
+            scen = dict(name="long wait for a token", commands=[["redo", "-j2", "--no-log", "all"]], hold_seconds=hold)
+            problems = []
+            if rs[0].rc != 0 or rs[0].timed_out or "panicked" in rs[0].err:
+                problems.append("all scripts succeed but the command exited %s%s" % (rs[0].rc, " (a process aborted: %s)" % re.search(r"panicked at[^\n]*\n[^\n]*", rs[0].err).group(0) if "panicked" in rs[0].err else ""))
+            if backs and max(backs) > 1000:
+                problems.append("the back-off of the token wait loop reached %d ms after %d rounds and doubles every second: Duration overflow (abort) after about 65 s of waiting" % (max(backs), len(backs)))
+            if not backs:
+                problems.append("no process waited for a token (scenario lost its meaning)")
+            if problems:
+                p = write_replay("C09", "token-wait", dict(kind="impl-monitor", scenario=scen, problems=problems, backoff_ms=backs[-12:], stderr=rs[0].err[-1500:],
+                    replay="all.do: redo-ifchange a b long; a.do: sleep 0.3; redo-ifchange c; b.do: redo-ifchange c; sleep 75; c.do: sleep 1; long.do: sleep 75; redo -j2 --no-log all"))
+                viol.append(Violation("C09", p, "long wait for a token: " + "; ".join(problems)))
+        finally:
+            pr.destroy()
     # 5. random graphs, random -j, random delays
     if not viol:
         for i in range(60 if thorough else 8):
